@@ -271,35 +271,35 @@ theorem not_isActor_7 : ¬ IsActor w0 7 := by unfold IsActor; decide
 
 /-- an operation that is not a pair creation is trivially fresh -/
 theorem freshOK_pairOp (w : World) (s p : Nat) (f : List (Nat × Nat)) (m : PairMsg) : FreshOK w (.pair s p f m) := by
-  intro _ _ _ _ _ _ _ _ h; cases h
+  intro _ _ _ _ _ _ _ _ _ h; cases h
 
 theorem freshOK_tokSend (w : World) (t s d a : Nat) (h : Hook) : FreshOK w (.tokSend t s d a h) := by
-  intro _ _ _ _ _ _ _ _ h; cases h
+  intro _ _ _ _ _ _ _ _ _ h; cases h
 
 /-- a pair creation at the unused addresses 15, 16 is fresh in `w0` (a non-trivial instance) -/
 theorem freshOK_create :
-    FreshOK w0 (.factory 0 [] (.createPair (.token 9) (.native 0) noReq none 15 16)) := by
-  intro s f a0 a1 req c np nl h
+    FreshOK w0 (.factory 0 [] (.createPair (.token 9) (.native 0) noReq none none 15 16)) := by
+  intro s f a0 a1 req c ld np nl h
   cases h
   exact ⟨rfl, rfl, rfl⟩
 
 /-- ... and that creation succeeds and preserves `RegOK` (instance of `C16W.regOK_step`) -/
 theorem create_ok : ∃ w' out,
-    exec name0 w0 (.factory 0 [] (.createPair (.token 9) (.native 0) noReq none 15 16)) = .ok (w', out) ∧
+    exec name0 w0 (.factory 0 [] (.createPair (.token 9) (.native 0) noReq none none 15 16)) = .ok (w', out) ∧
     RegOK w' := by
   obtain ⟨w', out, h⟩ := exists_pair_of_isOk
-    (x := exec name0 w0 (.factory 0 [] (.createPair (.token 9) (.native 0) noReq none 15 16))) (by decide +kernel)
+    (x := exec name0 w0 (.factory 0 [] (.createPair (.token 9) (.native 0) noReq none none 15 16))) (by decide +kernel)
   refine ⟨w', out, h, Halo.Props.C16W.regOK_step regOK_w0 rawOK_w0 ?_ ?_ h⟩
   · intro s p f m h; cases h
-  · intro s f a0 a1 req c np nl h; exact (freshOK_create s f a0 a1 req c np nl h).1
+  · intro s f a0 a1 req c ld np nl h; exact (freshOK_create s f a0 a1 req c ld np nl h).1
 
 /-- the hypotheses of the genesis theorem `C03G.created_pair_inv` are met by that creation: the owner (account 0) is an
 external actor, the addresses 15 / 16 are fresh and allocated as the environment does, and the creation succeeds — so
 the new pair satisfies `PairInv` with zero supply -/
 theorem create_establishes_inv : ∃ w', PairInv w' 15 (.token 9) (.native 0) 16 ∧ supply w' 16 = 0 := by
   obtain ⟨w', out, h⟩ := exists_pair_of_isOk
-    (x := exec name0 w0 (.factory 0 [] (.createPair (.token 9) (.native 0) noReq none 15 16))) (by decide +kernel)
-  have hv : ValidOp w0 (.factory 0 [] (.createPair (.token 9) (.native 0) noReq none 15 16)) :=
+    (x := exec name0 w0 (.factory 0 [] (.createPair (.token 9) (.native 0) noReq none none 15 16))) (by decide +kernel)
+  have hv : ValidOp w0 (.factory 0 [] (.createPair (.token 9) (.native 0) noReq none none 15 16)) :=
     { actor := isActor_0, fresh := freshOK_create, coins := by decide }
   have hn : NewAddrs w0 15 16 := { ne := by decide, pairFree := rfl, npNotRouter := by decide, nlNotRouter := by decide }
   exact ⟨w', Halo.Props.C03G.created_pair_inv hv hn h⟩
